@@ -86,7 +86,10 @@ def variants(prog, rng):
     if not any(isinstance(st, gen.Block) for st in prog.stmts):
         # (statements only: a code fence with blanks after it is markup, not "horizontal whitespace inside a statement")
         yield 'trailing-whitespace', '\n'.join(line + rng.choice(['  ', '\t', ' \t ']) for line in canonical.split('\n'))
-    yield 'form-feeds-and-final-comment', canonical.replace('\n', '\n\x0c\n') + '\n# the end'
+    if not any(isinstance(st, gen.Block) for st in prog.stmts):     # (the inside of a fenced block is verbatim code: left alone)
+        yield 'form-feeds-and-final-comment', canonical.replace('\n', '\n\x0c\n') + '\n# the end'
+    else:
+        yield 'final-comment-no-newline', canonical + '\n# the end'
     yield 'bare-condition', gen.render_program(prog, L(rng, noise=0.0, bare_p=1.0))
     yield 'comments-blank-lines', gen.render_program(prog, L(rng, noise=0.0, comments=0.9))
     yield 'paren-break', gen.render_program(paren_break(prog), L(rng, noise=0.0, breaks=1.0, comments=0.5))
